@@ -279,11 +279,40 @@ def _same(x, y):
         return False
 
 
+TYPED_OBJECTS = {
+    # python objects of the value types themselves (not their text form), given as constructor recipes so cases stay JSON
+    "Duration": [{"hours": 12}, {"years": 1, "months": 2, "hours": 12}, {"months": 1}, {"weeks": 2, "days": 1, "seconds": 1.5}, {"years": 3}],
+    "PintUnit": [{"u": "meter"}, {"u": "kg*m/s**2"}],
+    "PintQuantity": [{"q": "5 meter"}, {"q": "0.1 m"}, {"q": "3 km/h"}],
+}
+
+
+def materialise(raw):
+    """Replace {"__typed__": T, "kw": {...}} by the python object of value type T."""
+    if isinstance(raw, dict):
+        if "__typed__" in raw:
+            import metador_core.schema.types as mt
+
+            t, kw = raw["__typed__"], raw["kw"]
+            if t == "Duration":
+                return mt.Duration(**kw)
+            if t == "PintUnit":
+                return mt.PintUnit(kw["u"])
+            if t == "PintQuantity":
+                return mt.PintQuantity(kw["q"])
+            raise ValueError(t)
+        return {k: materialise(v) for k, v in raw.items()}
+    if isinstance(raw, list):
+        return [materialise(v) for v in raw]
+    return raw
+
+
 def build_instance(S, raw: dict, route: str):
-    """A valid instance or None.  route 'parse': S.parse_obj(raw); 'native': S(**validated python values)."""
+    """A valid instance or None.  route 'parse': S.parse_obj(raw); 'native': S(**validated python values);
+    raw may contain typed-object recipes (see materialise)."""
     try:
         with watchdog(10):
-            o = S.parse_obj(raw)
+            o = S.parse_obj(materialise(raw))
             if route == "native":
                 consts = getattr(S, "__constants__", {}) or {}
                 kw = {n: getattr(o, n) for n in o.__fields_set__ if n in S.__fields__ and n not in consts}
@@ -324,6 +353,18 @@ def _enumerate(tier: str, seed: int):
     # A0: the atoms first (minimal reproducers come first)
     n0 = len(sl.grammar(0))
     yield from part_a(sl.grammar(2)[:n0])
+    # A1: python objects of the special value types as input (what code building instances programmatically passes)
+    for tname, recipes in TYPED_OBJECTS.items():
+        for ts in (tname, ["Optional", tname], ["List", tname]):
+            fam = sl.single_field_family(ts)
+            try:
+                S = sl.build_family(fam)["Top"]
+            except Exception:
+                continue
+            fname = fam[-1]["fields"][0][0]
+            for kw in recipes:
+                obj = {"__typed__": tname, "kw": kw}
+                yield S, {"family": fam, "name": "Top"}, "T:" + sl.tstr(ts), {fname: [obj] if isinstance(ts, list) and ts[0] == "List" else obj}, "parse"
     # B: composite families
     for name, fam in COMPOSITES:
         S = sl.build_family(fam)["Top"]
